@@ -142,6 +142,25 @@ func c08Gates(m *MClaims, c psatoken.IClaims, kp keyPair, st *Stats, extRuleBrok
 			return "ValidateAndSign and Sign tokens differ under deterministic EdDSA"
 		}
 	}
+	// caller-supplied signers for algorithms go-cose has no built-in signer
+	// (or no name) for: whatever Sign does with them, ValidateAndSign does
+	// the same on a valid set
+	for _, alg := range []int64{-47, -257, -65000, 0, 5} {
+		fs := func() cose.Signer { return &faultySigner{alg: cose.Algorithm(alg), mode: "junk", n: 64} }
+		e1, e2 := &psatoken.Evidence{Claims: c}, &psatoken.Evidence{Claims: c}
+		t1, err1 := e1.Sign(fs())
+		t2, err2 := e2.ValidateAndSign(fs())
+		if (err2 == nil) != (valid && err1 == nil) {
+			return fmt.Sprintf("with a caller-supplied signer for algorithm %d: ValidateAndSign err=%v, Sign err=%v, Validate()=%v", alg, err2, err1, verr)
+		}
+		if err1 == nil && err2 == nil {
+			a, okA := icose.Split(t1)
+			b, okB := icose.Split(t2)
+			if !okA || !okB || !bytes.Equal(a.Payload, b.Payload) || !bytes.Equal(a.Protected, b.Protected) {
+				return fmt.Sprintf("with a caller-supplied signer for algorithm %d ValidateAndSign and Sign produce different tokens", alg)
+			}
+		}
+	}
 	st.Class("gate=ValidateAndSign")
 
 	// gate 5: decode-and-validate CBOR. Input bytes: the non-validating
@@ -162,6 +181,24 @@ func c08Gates(m *MClaims, c psatoken.IClaims, kp keyPair, st *Stats, extRuleBrok
 		x := wn.Clone()
 		x.Pairs = append(x.Pairs, icbor.P(icbor.U(99999), icbor.Tstr("extra")))
 		variants = append(variants, icbor.Encode(x))
+		// extra entries of other kinds: a text label, labels at the ends of
+		// the integer ranges, an unknown key twice, a known key twice
+		for _, extra := range [][][2]*icbor.Node{
+			{icbor.P(icbor.Tstr("build"), icbor.U(1))},
+			{icbor.P(icbor.U(1<<63-1), icbor.U(1))},
+			{icbor.P(icbor.U(1<<63), icbor.U(1))},
+			{icbor.P(icbor.NintArg(1<<63-1), icbor.U(1))},
+			{icbor.P(icbor.I(-70001), icbor.U(1)), icbor.P(icbor.I(-70001), icbor.U(2))},
+			{wn.Pairs[0]},
+			{wn.Pairs[len(wn.Pairs)-1]},
+			{icbor.P(icbor.Bstr([]byte{1}), icbor.U(1))},
+			{icbor.P(icbor.Arr(), icbor.Null())},
+		} {
+			y := wn.Clone()
+			y.Pairs = append(y.Pairs, extra...)
+			variants = append(variants, icbor.Encode(y))
+		}
+		variants = append(variants, icbor.Encode(wn.WithIndef()), icbor.Encode(wn.WithHead(8)))
 	}
 	for vi, wire := range variants {
 		d0, derr := psatoken.DecodeClaimsFromCBOR(wire)
@@ -248,6 +285,29 @@ func c08Gates(m *MClaims, c psatoken.IClaims, kp keyPair, st *Stats, extRuleBrok
 			}
 			if (e0.Verify(kp.Pub) == nil) != (e1.Verify(kp.Pub) == nil) {
 				return "validating and non-validating COSE decoders differ in verification outcome"
+			}
+		}
+	}
+	for vi, wire := range variants[1:] {
+		cw, serr := icose.SignedToken(kp.Alg, kp.Priv, wire)
+		if serr != nil {
+			return "VERIF-INFRA: " + serr.Error()
+		}
+		e0, eerr := psatoken.DecodeEvidenceFromCOSE(cw)
+		e1, err := psatoken.DecodeAndValidateEvidenceFromCOSE(cw)
+		if eerr != nil {
+			if err == nil {
+				return "DecodeAndValidateEvidenceFromCOSE accepts a token the plain decoder rejects"
+			}
+			continue
+		}
+		evv := e0.Claims.Validate()
+		if (err == nil) != (evv == nil) {
+			return fmt.Sprintf("DecodeAndValidateEvidenceFromCOSE (payload variant %d: %x...): err=%v, Validate() of the decoded claims=%v", vi+1, wire[:4], err, evv)
+		}
+		if err == nil {
+			if d := Observe(e0.Claims).Diff(Observe(e1.Claims)); d != "" {
+				return "validating and non-validating COSE decoders differ: " + d
 			}
 		}
 	}
